@@ -3,129 +3,20 @@ package main
 import (
 	"bytes"
 	"fmt"
-	"go/ast"
-	"go/token"
-	"strings"
 )
 
-// facts for package aac: `SampleRateIndex.ToHz` as a table lookup with an optional
-// bounds guard. The generic enum-helper translator (main.go, shape B) only knows the
-// unguarded `tbl := []T{…}; return tbl[v]` form; here both forms are translated
-// under ONE name so that removing the guard changes the generated definition (and
-// breaks the totality theorem) instead of making the model stop compiling:
-//
-//	tbl := []int{c0, c1, …}
-//	[ if int(v) >= len(tbl) { return D } ]     // optional guard
-//	return tbl[v]
-//
-// becomes  toHzTable = [c0, c1, …],  toHzGuard = some D | none,  ToHz v.
+// facts for package aac: `SampleRateIndex.ToHz` under the short name the model uses. The method itself is
+// translated like every other enum helper (printed when it is a plain switch or an index into a local table,
+// EVALUATED over all 256 receiver values otherwise — see eval.go) as `SampleRateIndex_ToHz`. A receiver value
+// outside the frequency table that no guard catches shows as `.panic` in the evaluated table (and breaks the
+// totality theorem), whatever the guard and the table look like in the source.
 func init() { facts["aac"] = factsAac }
 
 func factsAac(p *pkgInfo, w *bytes.Buffer) error {
-	var fd *ast.FuncDecl
-	for _, f := range p.files {
-		for _, d := range f.Decls {
-			x, ok := d.(*ast.FuncDecl)
-			if !ok || x.Recv == nil || x.Name.Name != "ToHz" || len(x.Recv.List) != 1 {
-				continue
-			}
-			if id, ok := x.Recv.List[0].Type.(*ast.Ident); ok && id.Name == "SampleRateIndex" {
-				fd = x
-			}
-		}
-	}
-	if fd == nil || fd.Body == nil || len(fd.Recv.List[0].Names) != 1 {
+	if fd := p.funcDecl("SampleRateIndex", "ToHz"); fd == nil {
 		return fmt.Errorf("func (v SampleRateIndex) ToHz() not found")
 	}
-	recv := fd.Recv.List[0].Names[0].Name
-	isRecv := func(e ast.Expr) bool {
-		for {
-			switch x := e.(type) {
-			case *ast.ParenExpr:
-				e = x.X
-				continue
-			case *ast.CallExpr: // conversion int(v), uint(v), …
-				if len(x.Args) == 1 {
-					if tv, ok := p.info.Types[x.Fun]; ok && tv.IsType() {
-						e = x.Args[0]
-						continue
-					}
-				}
-			}
-			break
-		}
-		id, ok := e.(*ast.Ident)
-		return ok && id.Name == recv
-	}
-	st := fd.Body.List
-	if len(st) != 2 && len(st) != 3 {
-		return fmt.Errorf("SampleRateIndex.ToHz: unrecognised body shape (%d statements)", len(st))
-	}
-	as, ok := st[0].(*ast.AssignStmt)
-	if !ok || len(as.Lhs) != 1 || len(as.Rhs) != 1 {
-		return fmt.Errorf("SampleRateIndex.ToHz: first statement is not `tbl := []int{…}`")
-	}
-	tbl, ok1 := as.Lhs[0].(*ast.Ident)
-	cl, ok2 := as.Rhs[0].(*ast.CompositeLit)
-	if !ok1 || !ok2 {
-		return fmt.Errorf("SampleRateIndex.ToHz: first statement is not `tbl := []int{…}`")
-	}
-	var vals []string
-	for _, e := range cl.Elts {
-		v, ty, ok := p.constOf(e)
-		if !ok || ty != "Nat" {
-			return fmt.Errorf("SampleRateIndex.ToHz: non-constant / negative table element")
-		}
-		vals = append(vals, v)
-	}
-	guard := "none"
-	if len(st) == 3 {
-		is, ok := st[1].(*ast.IfStmt)
-		if !ok || is.Init != nil || is.Else != nil || len(is.Body.List) != 1 {
-			return fmt.Errorf("SampleRateIndex.ToHz: middle statement is not a plain guard")
-		}
-		be, ok := is.Cond.(*ast.BinaryExpr)
-		if !ok || be.Op != token.GEQ || !isRecv(be.X) {
-			return fmt.Errorf("SampleRateIndex.ToHz: guard condition is not `v >= len(tbl)`")
-		}
-		ce, ok := be.Y.(*ast.CallExpr)
-		if !ok || len(ce.Args) != 1 {
-			return fmt.Errorf("SampleRateIndex.ToHz: guard condition is not `v >= len(tbl)`")
-		}
-		fn, ok1 := ce.Fun.(*ast.Ident)
-		arg, ok2 := ce.Args[0].(*ast.Ident)
-		if !ok1 || !ok2 || fn.Name != "len" || arg.Name != tbl.Name {
-			return fmt.Errorf("SampleRateIndex.ToHz: guard condition is not `v >= len(tbl)`")
-		}
-		ret, ok := is.Body.List[0].(*ast.ReturnStmt)
-		if !ok || len(ret.Results) != 1 {
-			return fmt.Errorf("SampleRateIndex.ToHz: guard body is not a single return")
-		}
-		d, ty, ok := p.constOf(ret.Results[0])
-		if !ok || ty != "Nat" {
-			return fmt.Errorf("SampleRateIndex.ToHz: guard returns a non-constant")
-		}
-		guard = "some " + d
-	}
-	ret, ok := st[len(st)-1].(*ast.ReturnStmt)
-	if !ok || len(ret.Results) != 1 {
-		return fmt.Errorf("SampleRateIndex.ToHz: last statement is not `return tbl[v]`")
-	}
-	ix, ok := ret.Results[0].(*ast.IndexExpr)
-	if !ok || !isRecv(ix.Index) {
-		return fmt.Errorf("SampleRateIndex.ToHz: last statement is not `return tbl[v]`")
-	}
-	if x, ok := ix.X.(*ast.Ident); !ok || x.Name != tbl.Name {
-		return fmt.Errorf("SampleRateIndex.ToHz: last statement is not `return tbl[v]`")
-	}
-	fmt.Fprintf(w, "/-- Go `SampleRateIndex.ToHz`: the %d-element slice literal `%s`. -/\ndef toHzTable : List Nat := [%s]\n",
-		len(vals), tbl.Name, strings.Join(vals, ", "))
-	fmt.Fprintf(w, "/-- Go `SampleRateIndex.ToHz`: `some d` when `if %s >= len(%s) { return d }` precedes the lookup, `none` when the lookup is unguarded. -/\ndef toHzGuard : Option Nat := %s\n",
-		recv, tbl.Name, guard)
-	w.WriteString("/-- Go `func (v SampleRateIndex) ToHz()` with Go indexing semantics (out of range = panic unless guarded). -/\n" +
-		"def ToHz (v : Nat) : Res Nat :=\n" +
-		"  match toHzGuard with\n" +
-		"  | some d => if v ≥ toHzTable.length then .ok d else idx toHzTable v\n" +
-		"  | none => idx toHzTable v\n")
+	w.WriteString("/-- Go `func (v SampleRateIndex) ToHz()` (the translated helper under the name the model uses). -/\n" +
+		"def ToHz (v : Nat) : Res Nat := SampleRateIndex_ToHz v\n")
 	return nil
 }
